@@ -73,7 +73,8 @@ KEYS = ['_nodes_from', 'content', 'uid', '_nodes', '_postprocess_nodes', 'operat
         '_values', '_weights', 'wvalues', 'extra', 'three', 'computation_time_in_seconds', 'evaluation',
         'scaling', 'mutation', 'crossover', 'single_add', 'single_drop', 'one_point', 'subtree', 'selection',
         '', 'a', 'b', 'c', 'op', 'n', 'x y', '7', '0', '3', '-12', '1050', 'True', 'None', 'two', 'x', 'y', 'z', 'q', 'k', 'm',
-        'w', 'lr', 'depth', 'flag', 'note', 'ok', 'dup', 'nobody', 'nobody-else', 'simple', 'm1', 'm2', 'p'] + \
+        'w', 'lr', 'depth', 'flag', 'note', 'ok', 'dup', 'nobody', 'nobody-else', 'simple', 'm1', 'm2', 'p',
+        '#Infinity#', '#-Infinity#', '#NaN#', 'limit', 'lo', 'deep', 'u', 'hi', 'penalty', 'bound', 'gap'] + \
     ['n%d' % i for i in range(8)] + ['FRESH%d' % i for i in range(4)]
 for _i, _k in enumerate(KEYS):
     CONST[_k] = 'k%d_' % _i
@@ -82,6 +83,29 @@ PRE_BASE = ('From GolemV Require Import Serial.Json.\nLocal Open Scope nat_scope
             '\nDefinition jn_ (us : list json) (c : list (string * json)) (u : string) : json := '
             'JObj [(k0_, JArr us); (k1_, JObj c); (k2_, JStr u); (CP, JStr node_path)].\n')
 GLOBAL = {}      # json.dumps(value) -> name of a Coq constant holding the value (pools of params / metadata)
+
+
+TOKENS = {'Infinity': '#Infinity#', '-Infinity': '#-Infinity#', 'NaN': '#NaN#'}
+
+
+def tok(x):
+    """reserved string for a non-finite float (nan equals nan, infinities by sign); None for other values"""
+    if isinstance(x, float) and not isinstance(x, bool):
+        if x != x:
+            return TOKENS['NaN']
+        if x in (math.inf, -math.inf):
+            return TOKENS['Infinity'] if x > 0 else TOKENS['-Infinity']
+    return None
+
+
+def canon_value(v):
+    """deep copy of a JSON-like value with every non-finite float replaced by its token"""
+    if isinstance(v, dict):
+        return {k: canon_value(x) for k, x in v.items()}
+    if isinstance(v, (list, tuple)):
+        return type(v)(canon_value(x) for x in v)
+    t = tok(v)
+    return v if t is None else t
 
 
 CUR = [None]
@@ -131,6 +155,8 @@ def c_json(v, em):
         return 'JNull'
     if v is True or v is False:
         return '(JBool %s)' % c_bool(v)
+    if tok(v) is not None:
+        return '(JStr %s)' % cs(tok(v))
     if isinstance(v, (int, float)):
         return '(JNum %s)' % c_Q(v)
     if isinstance(v, str):
@@ -184,7 +210,8 @@ def c_ojson(tree, em):
 # building graphs from specs
 # ------------------------------------------------------------------------------------------
 PARAMS = [None, {}, {'a': 1}, {'x': 0.5, 'y': {'z': [1, 2.5, 'q', None, True]}}, {'k': {'m': {'n': -3}}, 'w': []},
-          {'lr': 0.125, 'depth': 7, 'flag': False}]
+          {'lr': 0.125, 'depth': 7, 'flag': False},
+          {'limit': math.inf}, {'lo': -math.inf, 'deep': {'u': [math.nan, 1, {'hi': math.inf}]}}]
 NAMES = ['a', 'b', 'c', 'op', 'n', 'scaling', 'x y', '7']
 
 
@@ -231,7 +258,7 @@ def canon_content(content):
         v = c['name']
         if not (v is None or type(v) in (str, int, bool)):
             c['name'] = str(v)
-    return c
+    return canon_value(c)
 
 
 def make_content(rng, style=None):
@@ -448,11 +475,9 @@ def _try(fn):
 
 
 def parse_tree(text):
-    """plain JSON tree of a text; None when it holds NaN / Infinity (not JSON, and not a rational)"""
-    def bad(_):
-        raise ValueError('non-finite number')
+    """plain JSON tree of a text; the tokens Infinity / -Infinity / NaN become the reserved strings"""
     try:
-        return json.loads(text, parse_constant=bad)
+        return json.loads(text, parse_constant=lambda name: TOKENS[name])
     except ValueError:
         return None
 
@@ -487,7 +512,7 @@ def observe_graph(spec):
     o['typed_same'] = (typed_snapshot(objs) == t_before and [id(n) for n in graph.nodes] == order_before)
     if r[0] == 'ok':
         text = r[1]
-        o['json'] = json.loads(text)
+        o['json'] = parse_tree(text)
         lr = _try(lambda: json.loads(text, cls=Serializer))
         nr = _try(lambda: observe_loaded_graph(lr[1], type(graph))) if lr[0] == 'ok' else ('exc', '')
         nodes = nr[1] if nr[0] == 'ok' else None
@@ -689,16 +714,16 @@ def seq_kind(x):
 
 def rec_fitness(f):
     """description of a fitness object as it is in memory; None if it has an unexpected shape"""
-    def finite(xs):
-        return all(x is None or (isinstance(x, (int, float)) and not isinstance(x, bool) and math.isfinite(x)) for x in xs)
+    def numeric(xs):
+        return all(x is None or (isinstance(x, (int, float)) and not isinstance(x, bool)) for x in xs)
     if type(f) is SingleObjFitness:
         v = f._values
-        if seq_kind(v) is None or not finite(v):
+        if seq_kind(v) is None or not numeric(v):
             return None
         return ('S', seq_kind(v), list(v))
     if type(f) is MultiObjFitness:
         w, v = f._weights, f.wvalues
-        if seq_kind(w) is None or seq_kind(v) is None or not finite(w) or not finite(v):
+        if seq_kind(w) is None or seq_kind(v) is None or not numeric(w) or not numeric(v) or None in w or None in v:
             return None
         return ('M', seq_kind(w), seq_kind(v), list(w), list(v))
     return None
@@ -729,15 +754,23 @@ def rec_individual(ind):
     ng = ind.native_generation
     if not (ng is None or (isinstance(ng, int) and not isinstance(ng, bool))):
         return None
-    return {'fitness': f, 'metadata': copy.deepcopy(ind.metadata), 'native': ng, 'pop': po, 'uid': ind.uid}
+    return {'fitness': f, 'metadata': canon_value(copy.deepcopy(ind.metadata)), 'native': ng, 'pop': po, 'uid': ind.uid}
+
+
+def c_fnum(x):
+    t = tok(x)
+    if t is None:
+        return '(Fin %s)' % c_Q(x)
+    return {'#Infinity#': 'PInf', '#-Infinity#': 'NInf', '#NaN#': 'FNaN'}[t]
 
 
 def c_individual(rec, kind, refs, em):
     f = rec['fitness']
     if f[0] == 'S':
-        ft = '(FSingle %s %s)' % (f[1], c_list([c_opt(x, c_Q, 'Q') for x in f[2]], '(option Q)'))
+        ft = '(FSingle %s %s)' % (f[1], c_list([c_opt(x, c_fnum, 'fnum') for x in f[2]], '(option fnum)'))
     else:
-        ft = '(FMulti %s %s %s %s)' % (f[1], f[2], c_list([c_Q(x) for x in f[3]], 'Q'), c_list([c_Q(x) for x in f[4]], 'Q'))
+        ft = '(FMulti %s %s %s %s)' % (f[1], f[2], c_list([c_fnum(x) for x in f[3]], 'fnum'),
+                                       c_list([c_fnum(x) for x in f[4]], 'fnum'))
     po = rec['pop']
     if po == 'none':
         pt = '(@None parent_op)'
@@ -771,7 +804,7 @@ def observe_individual(spec, via_methods):
                         id(ind.parent_operator), [(p.uid, id(p)) for p in parents], tuple(sorted(vars(ind)))) == t_before)
     if r[0] == 'ok':
         text = r[1]
-        o['json'] = json.loads(text)
+        o['json'] = parse_tree(text)
         lr = _try(lambda: Individual.load(text) if via_methods else json.loads(text, cls=Serializer))
         loaded = lr[1] if lr[0] == 'ok' and type(lr[1]) is Individual else None
         nr = _try(lambda: observe_loaded_graph(loaded.graph, type(ind.graph))) if loaded is not None else ('exc', '')
@@ -798,14 +831,17 @@ def observe_individual(spec, via_methods):
                 # as what they are instances of)
                 def kind(x):
                     return ('none' if x is None else 'bool' if isinstance(x, bool) else
-                            'int' if isinstance(x, numbers_abc.Integral) else 'float', x)
+                            'int' if isinstance(x, numbers_abc.Integral) else 'float', canon_value(x))
                 return [[kind(x) for x in getattr(f, a, ())] for a in ('_values', 'wvalues', '_weights')]
             o['cmp_equal'] = all(a == ref and b == ref for a, b, ref in outs) and \
                 (_try(lambda: lf.valid) == _try(lambda: of.valid)) and \
                 (_try(lambda: numbers(lf)) == _try(lambda: numbers(of)))
             hl, ho = _try(lambda: hash(lf)), _try(lambda: hash(of))
             o['hash_raised'] = (hl[0] == 'exc' and ho[0] == 'ok')
-            o['hash_same'] = (hl == ho)
+            # hash(nan) is per object in CPython >= 3.10, so two equal-looking fitness objects holding a nan (already
+            # the original and a deep copy of it) hash differently: nothing can be demanded of the loaded copy then
+            holds_nan = any(tok(x) == TOKENS['NaN'] for a in ('_values', 'wvalues') for x in getattr(of, a, ()))
+            o['hash_same'] = (hl == ho) or holds_nan
     return h, ind_term, o
 
 
@@ -830,9 +866,10 @@ def ind_case(spec, h, ind_rec, o, tamper=False):
 
 DY = [0.0, 1.0, -1.0, 0.5, 1.5, 2.0, 0.25, -3.75, 100.0, 2.0 ** -20]
 INTS = [7, 0, -3, 2]
+NONFINITE = [math.inf, -math.inf, math.nan]
 WEIGHTS = [1.0, -1.0, 0.5, 0.0, 0, 1, -1, 2, 0.25, -2.5]
 METADATA = [None, {}, {'computation_time_in_seconds': 0.5}, {'k': [1, 2, {'a': None}], 'evaluation': {'ok': True}},
-            {'note': 'x', 'n': 3}]
+            {'note': 'x', 'n': 3}, {'penalty': -math.inf, 'bound': [math.inf, {'gap': math.nan}]}]
 
 
 def _make_pre():
@@ -841,6 +878,7 @@ def _make_pre():
     pool = [p for p in PARAMS if p] + [m for m in METADATA if m] + [[1, 'two', {'three': 3.5}]]
     em = Em()
     em.sh = lambda t, always=False: t          # no sharing inside the constants
+    pool = [canon_value(v) for v in pool]
     for i, v in enumerate(pool):
         defs.append('Definition g%d_ : json := %s.' % (i, c_json(v, em)))
     for i, v in enumerate(pool):
@@ -862,20 +900,22 @@ def gen_ind_specs(ctx):
                   'parents': pl[j]} for j in range(n)]
         order = list(range(n))
         rng.shuffle(order)
+        def val():      # now and then a non-finite float (an infinite penalty, a nan)
+            return rng.choice(NONFINITE) if rng.random() < 0.15 else rng.choice(DY + INTS)
         fk = i % 6
         if fk == 0:
             fit = None                                             # not evaluated: default null fitness
         elif fk == 1:
             fit = ('S', [None])
         elif fk == 2:
-            fit = ('S', [rng.choice(DY + INTS)])
+            fit = ('S', [val()])
         elif fk == 3:
-            fit = ('S', [rng.choice(DY + INTS), rng.choice(DY + INTS)])
+            fit = ('S', [val(), val()])
         elif fk == 4:
             # weighted values: zero / negative / fractional / integer weights, int-valued objectives
             # (an int objective with an int weight is stored - and printed - as an int)
             k = rng.choice([1, 2, 3])
-            fit = ('M', [rng.choice(DY + INTS) for _ in range(k)], [rng.choice(WEIGHTS) for _ in range(k)])
+            fit = ('M', [val() for _ in range(k)], [rng.choice(WEIGHTS) for _ in range(k)])
         else:
             fit = ('M', [], [])
         pk = (i // 6) % 6
@@ -927,6 +967,8 @@ def run_individuals(ctx):
                   fitness=fk, evaluated=valid, parent_operator=(spec['pop'] or {}).get('type'),
                   zero_weight=(fk == 'multi' and any(w == 0 for w in f[2])),
                   int_objective=(f is not None and any(isinstance(x, int) for x in f[1])),
+                  nonfinite_fitness=(f is not None and any(tok(x) is not None for x in f[1])),
+                  nonfinite_metadata=('penalty' in (spec['metadata'] or {})),
                   n_parents=len((spec['pop'] or {}).get('parents', [])), metadata=bool(spec['metadata']),
                   repeated_parent=(len(set((spec['pop'] or {}).get('parents', [])))
                                    != len((spec['pop'] or {}).get('parents', []))))
@@ -1017,7 +1059,7 @@ def run_json_load(ctx):
     specs = [s for o, s in gen_graph_specs_small(ctx, n)]
     for spec in specs:
         graph, objs = build_graph(spec)
-        tree = json.loads(dumps(graph))
+        tree = parse_tree(dumps(graph))
         what, t = edit_tree(rng, tree, spec['kind'])
         loaded, resave = observe_load(t, spec['kind'])
         if loaded == 'unexpected':
@@ -1030,7 +1072,7 @@ def run_json_load(ctx):
         meta.append((what, spec, t, loaded))
     # canary: claim one more node than was loaded
     graph, objs = build_graph(specs[0])
-    tree = json.loads(dumps(graph))
+    tree = parse_tree(dumps(graph))
     loaded, resave = observe_load(tree, specs[0]['kind'])
     em = Em()
     cases.append(em.wrap('(%s, (Some %s), %s, %s)' % (c_json(tree, em), c_heap(loaded[0] + [('zz', {}, (), True)], em),
@@ -1092,7 +1134,7 @@ def view(graph, known, fresh):
         for p in n.nodes_from:
             ps.append(9998 if p is None else index.get(id(p), 9999))
         params = n.parameters
-        out.append((uid, n.name, copy.deepcopy(params), tuple(ps), isinstance(n.nodes_from, UniqueList)))
+        out.append((uid, n.name, canon_value(copy.deepcopy(params)), tuple(ps), isinstance(n.nodes_from, UniqueList)))
     return tuple(out)
 
 
@@ -1218,7 +1260,10 @@ def lock_run(spec, ops, via_individual):
     if via_individual:
         icls = C11Individual if spec.get('user') else Individual
         ind = icls(graph, fitness=SingleObjFitness(1.0), metadata={'t': 0.5, 'tags': ['a', 1]}, native_generation=3)
-        text = ind.save()
+        sr = _try(lambda: ind.save())
+        if sr[0] != 'ok':        # the property promises that any individual can be saved
+            return vo, sentinel('SAVE-RAISED-' + str(sr[1])), [], False
+        text = sr[1]
         lr = _try(lambda: Individual.load(text))
         gr = _try(lambda: lr[1].graph) if lr[0] == 'ok' else lr
         if gr[0] != 'ok':
@@ -1227,7 +1272,10 @@ def lock_run(spec, ops, via_individual):
         ind_same = _try(lambda: (type(lind) is icls and lind.metadata == ind.metadata and lind.uid == ind.uid and
                                  lind.native_generation == 3 and lind.save() == text)) == ('ok', True)
     else:
-        text = dumps(graph)
+        sr = _try(lambda: dumps(graph))
+        if sr[0] != 'ok':
+            return vo, sentinel('SAVE-RAISED-' + str(sr[1])), [], False
+        text = sr[1]
         lr = _try(lambda: json.loads(text, cls=Serializer))
         if lr[0] != 'ok':
             return vo, sentinel('LOAD-RAISED-' + str(lr[1])), [], False
@@ -1402,7 +1450,9 @@ def run(ctx):
         'constructor-made logger and journal) are compared original-vs-loaded only, without the model',
         'json text <-> tree (CPython json.dumps / json.loads: key order = dict order, float printing) is compared '
         'textually by the harness (second text == first text) and not modelled',
-        'inputs hold only JSON-native values (string keys, no tuples, finite dyadic non-integral floats, ints); '
+        'non-finite floats (inf / -inf / nan, anywhere in params / metadata / fitness) are shown to the model as the '
+        'reserved strings #Infinity# / #-Infinity# / #NaN# (also the tokens Infinity / -Infinity / NaN of the JSON text)',
+        'inputs hold only JSON-native values (string keys, no tuples, dyadic non-integral or non-finite floats, ints); '
         'the JSON-tree model does not tell 1 from 1.0',
         'lock-step: only connect_nodes, disconnect_nodes (without clean-up) and delete_node are run through the '
         'model; the other editing methods are compared original-vs-loaded only (their model is Graph/Ops.v, C04)',
